@@ -1262,6 +1262,14 @@ class Interp:
             return {"textwrap.dedent": _textwrap.dedent, "inspect.cleandoc": _inspect.cleandoc, "textwrap.indent": _textwrap.indent}[name](*args, **kwargs)
         if name in ("dataclasses.field", "field"):
             return ("__field__", kwargs)
+        if name in ("dataclasses.fields", "fields") and len(args) == 1 and (isinstance(args[0], ClassRef) or (isinstance(args[0], Obj) and args[0].cls is not None)):
+            dcls = args[0].cls
+            names: list[str] = []
+            for c in reversed(self.prog.mro(dcls)):
+                for fname, ann in c.class_annots.items():
+                    if fname not in names and "ClassVar" not in unparse(ann):
+                        names.append(fname)
+            return [Obj(None, {"name": n_, "__closed__": True}, label=f"field {n_}") for n_ in names]
         if name in ("pathlib.Path", "pathlib.PurePath", "pathlib.PurePosixPath") and all(isinstance(a, (str, PurePath)) for a in args) and not kwargs:
             from pathlib import PurePosixPath
 
